@@ -23,6 +23,8 @@ pub struct Proc {
     pub alive: bool, // writer: holds a ShmWriter
     pub last_done: Option<(String, Option<[u64; WORDS]>, u64, u64)>,
     pub gen_loads_seen: u64,
+    /// values returned by the first version load and the first generation load of the current call
+    pub first_loads: (Option<u64>, Option<u64>),
 }
 
 pub struct Ctl {
@@ -33,6 +35,8 @@ pub struct Ctl {
     pub events: Vec<Value>,
     pub next_k: u64,
     pub log_events: bool,
+    /// the backing file was truncated under an attached reader: touching the mapping would kill the process
+    pub poisoned: bool,
 }
 
 /// What a step did, in specification terms.
@@ -62,6 +66,7 @@ impl Ctl {
                 alive: false,
                 last_done: None,
                 gen_loads_seen: 0,
+                first_loads: (None, None),
             },
         );
         for r in readers {
@@ -75,6 +80,7 @@ impl Ctl {
                     alive: false,
                     last_done: None,
                 gen_loads_seen: 0,
+                first_loads: (None, None),
                 },
             );
         }
@@ -86,6 +92,7 @@ impl Ctl {
             events: vec![],
             next_k: wk,
             log_events: false,
+            poisoned: false,
         }
     }
 
@@ -168,6 +175,19 @@ impl Ctl {
                 _ => (),
             }
         }
+        // values of the first loads of a call (C18 in-flight-at-entry predicate)
+        if let (Some(d), Phase::Call { after_ver, after_g1 }) = (&executed_desc, &phase) {
+            let prev = match &m {
+                Msg::Pending { prev, .. } => *prev,
+                Msg::Done { prev, .. } => *prev,
+            };
+            let p = self.procs.get_mut(name).unwrap();
+            if d == "load:ver" && !*after_ver {
+                p.first_loads.0 = prev;
+            } else if d == "load:gen" && !*after_g1 {
+                p.first_loads.1 = prev;
+            }
+        }
         // phase progress
         if let Some(d) = &executed_desc {
             let p = self.procs.get_mut(name).unwrap();
@@ -234,7 +254,8 @@ impl Ctl {
                         }
                     }
                     Phase::Call { .. } => {
-                        self.oracle.r_call_done(name, &what, words, accesses);
+                        let fl = self.procs[name].first_loads;
+                        self.oracle.r_call_done(name, &what, words, accesses, fl);
                         let kind = if what == "ok" { "ok" } else { "error" };
                         // first word of every chunk, as logged for RWord
                         let wv: Vec<u64> = words.map(|w| self.bounds[..self.bounds.len() - 1].iter().map(|lo| w[*lo] & 0xffff_ffff).collect()).unwrap_or_default();
@@ -271,6 +292,7 @@ impl Ctl {
                 Cmd::ROpen => action = "ROpen".to_string(),
                 Cmd::RCall => {
                     p.phase = Phase::Call { after_ver: false, after_g1: false };
+                    p.first_loads = (None, None);
                     action = "RCall".to_string();
                 }
                 Cmd::RClose => action = "RClose".to_string(),
@@ -320,6 +342,13 @@ impl Ctl {
         let (desc, _ord) = self.procs[name].actor.pending.clone().ok_or(format!("{name} has nothing pending"))?;
         let phase = self.procs[name].phase.clone();
         let crash = matches!(d, Directive::Crash);
+        if !crash && desc == "point:wipe.create" && self.procs.values().any(|p| p.attached) {
+            // executing File::create now would truncate the file under an attached reader (SIGBUS on its
+            // next access): record it and stop this run instead
+            self.oracle.violations.push(("C04".into(), "wipe-under-attached-reader".into(), "ShmWriter::new is about to truncate the segment while a reader is attached".into()));
+            self.poisoned = true;
+            return Err("POISONED".into());
+        }
         let action = if crash { "WCrash".to_string() } else { Self::name_action(&phase, &desc) };
         let m = self.procs.get_mut(name).unwrap().actor.release(d)?;
         if crash {
@@ -344,6 +373,10 @@ impl Ctl {
         };
         let n = after - before;
         self.log(name, "RSpin", Some(n), json!({}));
+        if after > RETRY + 2 {
+            // more generation loads than the retry budget allows: the call does not terminate on its own
+            self.oracle.violations.push(("C18".into(), "unbounded-work".into(), format!("reader {name}: snapshot() performed {after} generation loads in one call (retry budget {RETRY}) and is still running with the writer stalled")));
+        }
         Ok(self.handle_msg(name, "RSpin".into(), None, m))
     }
 
